@@ -12,7 +12,7 @@ cd /repo || exit 2
 if ! git diff --quiet; then echo "seedcheck: /repo is dirty"; exit 2; fi
 git apply "$patch" || { echo "seedcheck: patch does not apply"; exit 2; }
 trap 'git -C /repo checkout -- . ; git -C /repo clean -fdq' EXIT
-cd /verif
+cd ${VERIF_ROOT:-/verif}
 for id in "${ids[@]}"; do
   out=$(VERIF_TIER=${VERIF_TIER:-quick} timeout 3000 bin/check "$id" "${extra[@]}" 2>&1)
   rc=$?
